@@ -3,8 +3,6 @@
 use crate::exec::{abstract_response, leaf_json, prepare};
 use crate::util::*;
 use apollo_compiler::resolvers::{AsyncObjectValue, AsyncResolvedValue, Execution, FieldError, ResolveInfo};
-use apollo_compiler::response::JsonMap;
-use apollo_compiler::validation::Valid;
 use futures::future::BoxFuture;
 use futures::stream::BoxStream;
 use futures::Stream;
@@ -173,7 +171,7 @@ pub fn run_async(kind: &str, sels: &J, frags: &J, world: &J, schedule: &[usize])
     let (schema, doc, _text) = prepare(kind, sels, frags)?;
     let sh: Sh = Arc::new(Mutex::new(Shared { schedule: schedule.to_vec(), ..Default::default() }));
     let root = AW { type_name: if kind == "mutation" { "Mutation".into() } else { "Query".into() }, world: Arc::new(world.clone()), sh: sh.clone() };
-    let vars = Valid::assume_valid(JsonMap::new());
+    let vars = crate::exec::variables_for(&schema, &doc)?;
     let exec = Execution::new(&schema, &doc).coerced_variable_values(&vars);
     let fut = exec.execute_async(&root);
     let mut fut = Box::pin(fut);
@@ -229,7 +227,7 @@ fn run_sync(kind: &str, sels: &J, frags: &J, world: &J) -> Result<(J, Vec<J>, Ve
     let (schema, doc, _text) = prepare(kind, sels, frags)?;
     let log = Arc::new(Mutex::new(vec![]));
     let root = crate::exec::W { type_name: if kind == "mutation" { "Mutation".into() } else { "Query".into() }, world: Arc::new(world.clone()), log: Some(log.clone()) };
-    let vars = Valid::assume_valid(JsonMap::new());
+    let vars = crate::exec::variables_for(&schema, &doc)?;
     let resp = Execution::new(&schema, &doc).coerced_variable_values(&vars).execute_sync(&root).map_err(|e| format!("{e:?}"))?;
     let (d, e) = abstract_response(&resp);
     let calls = log.lock().unwrap().clone();
